@@ -231,7 +231,7 @@ func (dq *Deque[T]) waitPushAfter(ctx context.Context, it T, afterGetter func() 
 	cond := dq.updates
 	// If the context terminates, wake the waiter.
 	ctx, cancel := context.WithCancel(ctx)
-	go func() { <-ctx.Done(); cond.Broadcast() }()
+	go func() { <-ctx.Done(); defer adt.With(adt.Lock(dq.mtx)); cond.Broadcast() }()
 	defer cancel()
 
 	for dq.tracker.cap() <= dq.tracker.len() {
@@ -470,7 +470,7 @@ func (it *element[T]) wait(ctx context.Context, direction dqDirection) error {
 
 	// If the context terminates, wake the waiter.
 	ctx, cancel := context.WithCancel(ctx)
-	go func() { <-ctx.Done(); cond.Broadcast() }()
+	go func() { <-ctx.Done(); defer adt.With(adt.Lock(it.list.mtx)); cond.Broadcast() }()
 	defer cancel()
 
 	next := it.getNextOrPrevious(direction)
